@@ -26,6 +26,7 @@ package c18
 
 import (
 	"bytes"
+	"encoding/hex"
 	"encoding/json"
 	"fmt"
 	"io"
@@ -34,10 +35,12 @@ import (
 	"sort"
 	"strings"
 	"sync"
+	"sync/atomic"
 	"testing"
 	"time"
 
 	"github.com/coreos/go-semver/semver"
+	"github.com/tikv/pd/pkg/codec"
 	"github.com/tikv/pd/server/config"
 	"github.com/tikv/pd/server/core"
 	"github.com/tikv/pd/server/kv"
@@ -54,6 +57,7 @@ const (
 	findingRuleLabels    = "C18/replication-rule-labels-not-rolled-back"
 	findingEmptyLabels   = "C18/replication-empty-labels-nil-vs-empty"
 	findingCoordStale    = "C18/coordinator-writeback-stale-persist"
+	findingRuleAPISync   = "C18/rule-api-syncs-replication-before-setrule"
 )
 
 func TestMain(m *testing.M)   { vkit.Main(m, "C18") }
@@ -209,6 +213,61 @@ type Op struct {
 	// setter: POST /pd/api/v1/config/{schedule,replicate,replication-mode,cluster-version,label-property};
 	// pd-server items go through POST /pd/api/v1/config when the patch has a single key. Other ops ignore it.
 	HTTP bool `json:"http,omitempty"`
+	// R: rule requests (kinds "rule" = POST /config/rule with R[0], "rules" = POST /config/rules with all of R)
+	R []RuleSpec `json:"r,omitempty"`
+}
+
+// RuleSpec describes one posted placement rule: target (pd/default, pd/r2, g2/x), body variant, count.
+type RuleSpec struct {
+	T int `json:"t"`
+	B int `json:"b"`
+	C int `json:"c"` // index into ruleCounts
+}
+
+var (
+	ruleTargets = [][2]string{{"pd", "default"}, {"pd", "r2"}, {"g2", "x"}}
+	ruleCounts  = []int{-1, 0, 1, 3, 5, -999} // -999 = the max-replicas currently served
+	// body variants; bad = RuleManager.SetRule rejects it (7 only for the default rule, 8 only with count > 1)
+	ruleBodies = []string{"plain", "with-location-labels", "bad-role", "bad-hex", "end-before-start", "matches-no-store",
+		"bad-op", "starts-at-m", "leader", "raw-key"}
+)
+
+func encKey(k string) string { return hex.EncodeToString(codec.EncodeBytes([]byte(k))) }
+
+// ruleJSON builds the body of one rule; bad reports whether the rule manager must reject it.
+func ruleJSON(sp RuleSpec, current uint64) (body map[string]interface{}, bad bool, count int) {
+	tg := ruleTargets[sp.T]
+	count = ruleCounts[sp.C]
+	if count == -999 {
+		count = int(current)
+	}
+	m := map[string]interface{}{"group_id": tg[0], "id": tg[1], "role": "voter", "count": count, "start_key": "", "end_key": ""}
+	switch ruleBodies[sp.B] {
+	case "with-location-labels":
+		m["location_labels"] = []string{"zone"}
+	case "bad-role":
+		m["role"], bad = "bogus", true
+	case "bad-hex":
+		m["start_key"], bad = "zz", true
+	case "end-before-start":
+		m["start_key"], m["end_key"], bad = encKey("q"), encKey("c"), true
+	case "matches-no-store":
+		m["label_constraints"], bad = []map[string]interface{}{{"key": "zone", "op": "in", "values": []string{"nowhere"}}}, true
+	case "bad-op":
+		m["label_constraints"], bad = []map[string]interface{}{{"key": "zone", "op": "like", "values": []string{"z"}}}, true
+	case "starts-at-m":
+		m["start_key"] = encKey("m")
+		bad = sp.T == 0 // the default rule must cover the keys before m
+	case "leader":
+		m["role"] = "leader"
+		bad = count > 1
+	case "raw-key":
+		m["start_key"], bad = "61", true // not memcomparable-encoded while key-type is table
+	}
+	if count <= 0 {
+		bad = true
+	}
+	return m, bad, count
 }
 
 type Case struct {
@@ -218,8 +277,17 @@ type Case struct {
 func genOp(t *rapid.T) Op {
 	var op Op
 	op.Kind = rapid.SampledFrom([]string{"schedule", "schedule", "schedule", "replication", "replication", "replication",
-		"pdserver", "pdserver", "replmode", "labelset", "labelset", "labeldel", "labeldel", "labelcfg", "version"}).Draw(t, "kind")
+		"pdserver", "pdserver", "replmode", "labelset", "labelset", "labeldel", "labeldel", "labelcfg", "version", "rule", "rule", "rules"}).Draw(t, "kind")
 	switch op.Kind {
+	case "rule", "rules":
+		n := 1
+		if op.Kind == "rules" {
+			n = rapid.IntRange(1, 2).Draw(t, "nrules")
+		}
+		for i := 0; i < n; i++ {
+			op.R = append(op.R, RuleSpec{T: rapid.SampledFrom([]int{0, 0, 0, 1, 2}).Draw(t, "rt"),
+				B: rapid.IntRange(0, len(ruleBodies)-1).Draw(t, "rb"), C: rapid.IntRange(0, len(ruleCounts)-1).Draw(t, "rc")})
+		}
 	case "schedule":
 		op.P = rapid.IntRange(0, len(schedulePatches)-1).Draw(t, "p")
 	case "replication":
@@ -455,12 +523,17 @@ func singleKey(js string) bool {
 type ruleView struct {
 	Count  int
 	Labels string // joined with ",": nil and empty are the same thing here
+	Shape  string // "voter, whole key space, no constraints" for the rule the replication section stands for
 }
 
-func (r ruleView) String() string { return fmt.Sprintf("{count %d labels [%s]}", r.Count, r.Labels) }
+const plainShape = "voter/whole-key-space/unconstrained"
+
+func (r ruleView) String() string {
+	return fmt.Sprintf("{count %d labels [%s] %s}", r.Count, r.Labels, r.Shape)
+}
 
 func viewOfConfig(c *config.ReplicationConfig) ruleView {
-	return ruleView{Count: int(c.MaxReplicas), Labels: strings.Join(c.LocationLabels, ",")}
+	return ruleView{Count: int(c.MaxReplicas), Labels: strings.Join(c.LocationLabels, ","), Shape: plainShape}
 }
 
 func actualRule(fx *livesrv.Fixture) (ruleView, bool) {
@@ -472,7 +545,11 @@ func actualRule(fx *livesrv.Fixture) (ruleView, bool) {
 	if r == nil {
 		return ruleView{}, false
 	}
-	return ruleView{Count: r.Count, Labels: strings.Join(r.LocationLabels, ",")}, true
+	shape := plainShape
+	if r.Role != placement.Voter || len(r.StartKeyHex) > 0 || len(r.EndKeyHex) > 0 || len(r.LabelConstraints) > 0 || r.IsolationLevel != "" {
+		shape = fmt.Sprintf("%s/%s..%s/%d constraints/%s", r.Role, r.StartKeyHex, r.EndKeyHex, len(r.LabelConstraints), r.IsolationLevel)
+	}
+	return ruleView{Count: r.Count, Labels: strings.Join(r.LocationLabels, ","), Shape: shape}, true
 }
 
 const msgRuleInconsistent = "default rules do not consistent"
@@ -748,7 +825,186 @@ func runOnce(c Case) (vkit.Info, error) {
 	// every ACCEPTED replication update made with placement rules enabled and nothing else (a rejected or
 	// failed update leaves it alone; updates made while placement rules are off do not touch it).
 	ruleModel := viewOfConfig(fx.Svr.GetReplicationConfig())
+	// ---- rule requests (POST /config/rule, POST /config/rules): the handlers first sync the replication
+	// section with a posted default rule (SetReplicationConfig: validates, rewrites the default rule's count,
+	// persists) and only then hand the posted rule(s) to the rule manager.
+	var ruleActive int32
+	fx.ClusterGateAll(func(kind, key string) error {
+		// the handler runs on its own goroutine: while a rule request is in flight every write to the rule keys
+		// of the cluster storage takes part in the numbering (no background goroutine writes rules)
+		if atomic.LoadInt32(&ruleActive) == 1 && (kind == "save" || kind == "remove") && strings.HasPrefix(key, "rule") {
+			return of.write("cluster")
+		}
+		return nil
+	})
+	defer fx.ClusterGateAll(nil)
+	defaultRuleJSON := func() string {
+		if rc := fx.Svr.GetRaftCluster(); rc != nil {
+			return mustJSON(rc.GetRuleManager().GetRule("pd", "default"))
+		}
+		return "cluster not running"
+	}
+	doRule := func(step int, op Op) error {
+		cur := fx.Svr.GetReplicationConfig().MaxReplicas
+		specs := op.R
+		if op.Kind == "rule" && len(specs) > 1 {
+			specs = specs[:1]
+		}
+		if len(specs) == 0 {
+			return nil
+		}
+		build := func() (bodies []map[string]interface{}, anyBad, defaultChanges, hasDefault bool) {
+			for _, sp := range specs {
+				b, bad, cnt := ruleJSON(sp, cur)
+				bodies = append(bodies, b)
+				if ruleBodies[sp.B] == "leader" {
+					// a second leader rule over the same keys is refused when the rule list is built
+					if rc := fx.Svr.GetRaftCluster(); rc != nil {
+						for _, r := range rc.GetRuleManager().GetAllRules() {
+							if r.Role == placement.Leader && !(r.GroupID == ruleTargets[sp.T][0] && r.ID == ruleTargets[sp.T][1]) {
+								bad = true
+							}
+						}
+					}
+					for _, o := range specs {
+						if o != sp && ruleBodies[o.B] == "leader" && o.T != sp.T {
+							bad = true
+						}
+					}
+				}
+				anyBad = anyBad || bad
+				if sp.T == 0 {
+					hasDefault = true
+					if cnt > 0 && uint64(cnt) != cur {
+						defaultChanges = true
+					}
+				}
+			}
+			return
+		}
+		bodies, anyBad, defaultChanges, hasDefault := build()
+		faults := op.Faults
+		if defaultChanges && vkit.Known(findingRuleAPISync) {
+			// known class: a request that carries the default rule with a count other than the served max-replicas
+			// and then fails at the rule manager (rule refused, or rule write failing) leaves max-replicas and the
+			// default rule's count changed. While known: such a doomed request carries the current count instead,
+			// and no failure is injected into requests that change the count.
+			if anyBad {
+				for i := range specs {
+					if specs[i].T == 0 {
+						specs[i].C = len(ruleCounts) - 1
+					}
+				}
+				specs = append([]RuleSpec(nil), specs...)
+				bodies, anyBad, defaultChanges, hasDefault = build()
+				info.Exclude(findingRuleAPISync)
+				classes["known:doomed-default-rule-keeps-current-count"] = true
+			} else if faults {
+				faults = false
+				info.Exclude(findingRuleAPISync)
+				classes["known-class-not-faulted"] = true
+			}
+		}
+		path, body := "/config/rule", mustJSON(bodies[0])
+		if op.Kind == "rules" {
+			path, body = "/config/rules", mustJSON(bodies)
+		}
+		where := fmt.Sprintf("step %d POST %s %s", step, path, body)
+		before, beforeRule := served(fx), defaultRuleJSON()
+		exec := func() error {
+			atomic.StoreInt32(&ruleActive, 1)
+			defer atomic.StoreInt32(&ruleActive, 0)
+			return post(fx, path, body)
+		}
+		unchanged := func(what string, err error) error {
+			if d := diffSnap(before, served(fx)); d != "" {
+				return vkit.Errf("%s %s (%v) but the served configuration changed: %s", where, what, err, d)
+			}
+			if got, rerr := reloaded(w); rerr != nil {
+				return vkit.Errf("%s %s; %v", where, what, rerr)
+			} else if d := diffSnap(normalise(fx), got); d != "" {
+				return vkit.Errf("%s %s (%v); a fresh Reload differs from the served configuration (served, normalised => reloaded): %s", where, what, err, d)
+			}
+			if r := defaultRuleJSON(); r != beforeRule {
+				return vkit.Errf("%s %s (%v) but the default placement rule changed: %s => %s", where, what, err, beforeRule, r)
+			}
+			return nil
+		}
+		var cleanErr error
+		cleanDone := false
+		if faults {
+			for n := 1; n <= 16; n++ {
+				of.arm(n)
+				err := exec()
+				hit, on := of.hit()
+				of.arm(0)
+				if !hit {
+					cleanErr, cleanDone = err, true
+					break
+				}
+				failed++
+				classes["failed-"+on+"-write:"+op.Kind] = true
+				if err == nil {
+					return vkit.Errf("%s: write %d of the request (to the %s storage) failed but the request was answered with success", where, n, on)
+				}
+				if e := unchanged(fmt.Sprintf("failed at its write %d (%s storage)", n, on), err); e != nil {
+					return e
+				}
+			}
+		}
+		if !cleanDone {
+			of.arm(0)
+			cleanErr = exec()
+		}
+		if cleanErr != nil {
+			rejected++
+			classes["rejected:"+op.Kind] = true
+			classes["rule-request-bad-body"] = classes["rule-request-bad-body"] || anyBad
+			if strings.HasPrefix(cleanErr.Error(), "http transport") {
+				return fmt.Errorf("harness: %s: %v", where, cleanErr)
+			}
+			e := unchanged("was answered with an error", cleanErr)
+			if e != nil && defaultChanges && vkit.Known(findingRuleAPISync) {
+				// the same known class, for a refusal the generator could not foresee (it depends on the other
+				// rules being served): tolerated, counted, the model follows the real state
+				info.Exclude(findingRuleAPISync)
+				classes["known:unforeseen-refusal-after-sync"] = true
+				if ra, ok := actualRule(fx); ok {
+					ruleModel = ra
+				}
+				return nil
+			}
+			return e
+		}
+		accepted++
+		classes["accepted:"+op.Kind] = true
+		classes["accepted-default-rule-with-new-count"] = classes["accepted-default-rule-with-new-count"] || defaultChanges
+		if got, rerr := reloaded(w); rerr != nil {
+			return vkit.Errf("%s accepted; %v", where, rerr)
+		} else if d := diffSnap(normalise(fx), got); d != "" {
+			return vkit.Errf("%s accepted but a fresh Reload differs from the served configuration (served, normalised => reloaded): %s", where, d)
+		}
+		if d := servedDomainViolation(fx); d != "" {
+			return vkit.Errf("%s accepted; the served configuration is outside its domain: %s", where, d)
+		}
+		if ra, ok := actualRule(fx); ok {
+			if hasDefault && uint64(ra.Count) != fx.Svr.GetReplicationConfig().MaxReplicas {
+				return vkit.Errf("%s accepted; max-replicas is %d but the default rule's count is %d", where, fx.Svr.GetReplicationConfig().MaxReplicas, ra.Count)
+			}
+			ruleModel = ra // the request may have given the default rule other labels: follow it
+		}
+		return nil
+	}
 	for step, op := range c.Ops {
+		if op.Kind == "rule" || op.Kind == "rules" {
+			if err := doRule(step, op); err != nil {
+				return info, err
+			}
+			if !fx.Healthy() {
+				livesrv.Fatal("C18: server lost leadership / cluster stopped during a case")
+			}
+			continue
+		}
 		p, err := prepare(fx, op)
 		if err != nil {
 			return info, fmt.Errorf("harness: step %d %+v cannot be prepared: %v", step, op, err)
@@ -829,12 +1085,13 @@ func runOnce(c Case) (vkit.Info, error) {
 				// max-replicas / location-labels changes ("please update rule instead"). The model knows when that
 				// is the case; a refusal it cannot explain is a violation (it used to be the visible effect of the
 				// default rule keeping new labels after a failed persist).
-				explained := op.Kind == "replication" && strings.Contains(cleanErr.Error(), msgRuleInconsistent) &&
-					ruleModel != viewOfConfig(beforeRepl)
+				// (or a rule request gave the default rule other labels, another role, a key range or constraints, with
+				// which the requested count / labels cannot be combined)
+				explained := op.Kind == "replication" && ruleModel != viewOfConfig(beforeRepl)
 				inconsistent := op.Kind == "replication" && strings.Contains(cleanErr.Error(), msgRuleInconsistent)
 				switch {
 				case explained:
-					classes["valid-but-refused:rule-diverged-while-placement-rules-off"] = true
+					classes["valid-but-refused:rule-diverged-from-replication-section"] = true
 				case inconsistent && vkit.Known(findingEmptyLabels) && ruleModel.Labels == "" && len(beforeRepl.LocationLabels) == 0:
 					// known class: rule and section agree, both without location labels, but one is nil and the other
 					// an empty slice and the setter compares them with reflect.DeepEqual
@@ -870,7 +1127,9 @@ func runOnce(c Case) (vkit.Info, error) {
 		if op.Kind == "replication" {
 			now := fx.Svr.GetReplicationConfig()
 			if now.EnablePlacementRules && viewOfConfig(now) != viewOfConfig(beforeRepl) {
+				shape := ruleModel.Shape // the setter rewrites count and labels only
 				ruleModel = viewOfConfig(now)
+				ruleModel.Shape = shape
 			}
 			if ra, ok := actualRule(fx); ok && ra != ruleModel && !vkit.Known(findingRuleLabels) {
 				return info, vkit.Errf("%s accepted; the default placement rule is %v, expected %v (replication section %s)", where, ra, ruleModel, after[1])
@@ -1106,7 +1365,14 @@ type StartCase struct {
 
 func genStart(t *rapid.T) StartCase {
 	var c StartCase
-	plain := func() Op { op := genOp(t); op.Faults = false; return op }
+	plain := func() Op {
+		op := genOp(t)
+		op.Faults = false
+		if op.Kind == "rule" || op.Kind == "rules" {
+			op = Op{Kind: "replication", P: 0} // rule requests belong to the config family
+		}
+		return op
+	}
 	for i, n := 0, rapid.IntRange(1, 4).Draw(t, "during"); i < n; i++ {
 		op := plain()
 		if i == 0 && rapid.IntRange(0, 1).Draw(t, "scheduleFirst") == 0 {
@@ -1382,4 +1648,39 @@ func TestFinding_coordinator_writeback_stale_persist(t *testing.T) {
 		detail += "served and reloaded configuration agree"
 	}
 	vkit.Finding(t, findingCoordStale, rerr != nil && strings.Contains(rerr.Error(), "fresh Reload differs"), detail)
+}
+
+// TestFinding_rule_api_syncs_replication_before_setrule: POST /config/rule for pd/default first
+// syncs the replication section (max-replicas := rule.count, default rule's count rewritten,
+// persisted) and only then hands the rule to the rule manager; when that rejects the rule the
+// request is answered 400 but max-replicas and the default rule's count stay changed.
+func TestFinding_rule_api_syncs_replication_before_setrule(t *testing.T) {
+	defer livesrv.Shutdown()
+	fx, err := livesrv.Get()
+	if err != nil {
+		t.Logf("fixture did not start: %v", err)
+		return
+	}
+	w := fx.SwapStorage()
+	defer fx.RestoreStorage()
+	if err := fx.ResetConfig(w); err != nil {
+		t.Logf("probe undecided: %v", err)
+		return
+	}
+	cfg := fx.Svr.GetReplicationConfig()
+	if !cfg.EnablePlacementRules || cfg.MaxReplicas == 1 {
+		t.Logf("probe undecided: base %s", mustJSON(cfg))
+		return
+	}
+	a, ra := mustJSON(cfg), mustJSON(fx.Svr.GetRaftCluster().GetRuleManager().GetRule("pd", "default"))
+	e := post(fx, "/config/rule", `{"group_id":"pd","id":"default","role":"bogus","count":1,"start_key":"","end_key":""}`)
+	b, rb := mustJSON(fx.Svr.GetReplicationConfig()), mustJSON(fx.Svr.GetRaftCluster().GetRuleManager().GetRule("pd", "default"))
+	got, _ := reloaded(w)
+	fx.ResetConfig(w)
+	if e != nil && strings.HasPrefix(e.Error(), "http transport") {
+		t.Logf("probe undecided: %v", e)
+		return
+	}
+	vkit.Finding(t, findingRuleAPISync, e != nil && (a != b || ra != rb),
+		fmt.Sprintf("replication %s, default rule %s; POST /config/rule {pd/default, role bogus, count 1} => %v; replication afterwards %s (reloaded %s), default rule afterwards %s", a, ra, e, b, got[1], rb))
 }
